@@ -154,6 +154,8 @@ func kindOfTxn(t string) string {
 		return "?"
 	}
 	switch w[0] {
+	case "next":
+		return "next"
 	case "gov":
 		if len(w) > 1 {
 			return "gov-" + w[1]
@@ -173,31 +175,69 @@ func sortedCopy(xs []string) []string {
 	return c
 }
 
-// aliased: two submitted keys of a governance call are equal up to surrounding white space and letter case
-func aliased(t string) bool {
+// rawKeys: the submitted keys of a governance line
+func rawKeys(t string) []string {
 	w := strings.Fields(t)
 	if len(w) < 4 || w[0] != "gov" {
-		return false
+		return nil
 	}
-	seen := map[string]bool{}
+	var ks []string
 	for _, kv := range w[3:] {
-		k := strings.ToLower(strings.TrimSpace(unesc(strings.SplitN(kv, "=", 2)[0])))
-		if seen[k] {
+		ks = append(ks, unesc(strings.SplitN(kv, "=", 2)[0]))
+	}
+	return ks
+}
+
+// aliased: two DIFFERENT keys the call works on are equal up to surrounding white space and letter case. storagesc applies
+// the whole staged map — everything submitted by earlier update_settings calls of the case as well — on every call.
+func aliased(txns []string, k int) bool {
+	raw := map[string]bool{}
+	for _, key := range rawKeys(txns[k]) {
+		raw[key] = true
+	}
+	if kindOfTxn(txns[k]) == "gov-storage" {
+		for _, t := range txns[:k] {
+			if kindOfTxn(t) == "gov-storage" {
+				for _, key := range rawKeys(t) {
+					raw[key] = true
+				}
+			}
+		}
+	}
+	folded := map[string]bool{}
+	for key := range raw {
+		f := strings.ToLower(strings.TrimSpace(key))
+		if folded[f] {
 			return true
 		}
-		seen[k] = true
+		folded[f] = true
 	}
 	return false
 }
 
-func cause(t string) string {
+func cause(txns []string, k int) string {
+	t := txns[k]
+	if kindOfTxn(t) == "commit" {
+		// commit applies the staged map: the keys of all earlier storagesc update_settings calls of the case
+		kk := k
+		for kk > 0 && kindOfTxn(txns[kk]) != "gov-storage" {
+			kk--
+		}
+		if kindOfTxn(txns[kk]) == "gov-storage" && aliased(txns, kk) {
+			return "-alias"
+		}
+		return ""
+	}
 	if !strings.HasPrefix(kindOfTxn(t), "gov-") {
 		return ""
 	}
-	if aliased(t) {
+	if aliased(txns, k) {
 		return "-alias"
 	}
-	return "-early-return"
+	if kk := kindOfTxn(t); kk == "gov-faucet" || kk == "gov-vesting" {
+		return "-early-return" // `default: return setCostValue(…)` ends their loop on a cost key
+	}
+	return ""
 }
 
 const tagAddOrOverwriteUser = "3:11:" // event.TypeStats : event.TagAddOrOverwriteUser
@@ -225,6 +265,9 @@ func compareAll(txns []string, rs []*result) []*detail {
 			switch {
 			case x.Status != y.Status || x.Err != y.Err:
 				// the state diverges from here on: later transactions of this pair of executions cannot be attributed
+				if kind == "commit" {
+					kind += cause(txns, k)
+				}
 				add(&detail{"status", k, kind, fmt.Sprintf("%s: txn %d %q: status %d %q versus status %d %q", who, k, truncate(txns[k], 120), x.Status, truncate(x.Output+x.Err, 150), y.Status, truncate(y.Output+y.Err, 150))})
 				break txnLoop
 			case x.Output != y.Output && x.Status == 2:
@@ -232,7 +275,7 @@ func compareAll(txns []string, rs []*result) []*detail {
 				add(&detail{"error-output", k, kind, fmt.Sprintf("%s: txn %d %q fails in both, with output %q versus %q", who, k, truncate(txns[k], 120), truncate(x.Output, 150), truncate(y.Output, 150))})
 				continue
 			case x.Output != y.Output || x.Root != y.Root:
-				add(&detail{"state", k, kind + cause(txns[k]), fmt.Sprintf("%s: txn %d %q succeeds in both; state root after it %s versus %s, output %q versus %q", who, k, truncate(txns[k], 120), x.Root[:16], y.Root[:16], truncate(x.Output, 60), truncate(y.Output, 60))})
+				add(&detail{"state", k, kind + cause(txns, k), fmt.Sprintf("%s: txn %d %q succeeds in both; state root after it %s versus %s, output %q versus %q", who, k, truncate(txns[k], 120), x.Root[:16], y.Root[:16], truncate(x.Output, 60), truncate(y.Output, 60))})
 				break txnLoop
 			case x.Changes != y.Changes:
 				add(&detail{"changes", k, kind, fmt.Sprintf("%s: txn %d %q: change count after it %d versus %d", who, k, truncate(txns[k], 120), x.Changes, y.Changes)})
@@ -275,9 +318,9 @@ func expected(d *detail) bool {
 	case "error-output":
 		return strings.HasPrefix(d.kind, "gov-")
 	case "state":
-		return d.kind == "commit" || strings.HasPrefix(d.kind, "gov-storage-") || strings.HasPrefix(d.kind, "gov-faucet-") || strings.HasPrefix(d.kind, "gov-vesting-")
+		return d.kind == "commit-alias" || strings.HasPrefix(d.kind, "gov-storage-") || strings.HasPrefix(d.kind, "gov-faucet-") || strings.HasPrefix(d.kind, "gov-vesting-")
 	case "status":
-		return d.kind == "gov-faucet" || d.kind == "gov-vesting" || d.kind == "unlock"
+		return d.kind == "gov-faucet" || d.kind == "gov-vesting" || d.kind == "unlock" || d.kind == "commit-alias"
 	case "events-order":
 		return d.kind == "user-events"
 	}
@@ -368,7 +411,7 @@ func execCase(ops []string, req *request) string {
 		vr := *req
 		vr.Verify = &expect{Root: rs[0].Root, OutputHashes: rs[0].OutputHashes}
 		for _, t := range rs[0].Txns {
-			vr.Verify.Skip = append(vr.Verify.Skip, t.Status == 0)
+			vr.Verify.Skip = append(vr.Verify.Skip, t.Status <= 0)
 		}
 		vr.Repeat = 1
 		vss := make([][]*result, len(workers))
@@ -405,11 +448,14 @@ func execCase(ops []string, req *request) string {
 				x, y := rs[0].Txns[k], v.Txns[k]
 				kind := kindOfTxn(req.Txns[k])
 				if x.Status != y.Status {
+					if kind == "commit" {
+						kind += cause(req.Txns, k)
+					}
 					d = &detail{"status", k, kind, msg + fmt.Sprintf("; txn %d %q: status %d versus %d", k, truncate(req.Txns[k], 120), x.Status, y.Status)}
 				} else if x.Output != y.Output && x.Status == 2 {
 					d = &detail{"error-output", k, kind, msg + fmt.Sprintf("; txn %d %q: output %q versus %q", k, truncate(req.Txns[k], 120), truncate(x.Output, 120), truncate(y.Output, 120))}
 				} else if x.Output != y.Output {
-					d = &detail{"state", k, kind + cause(req.Txns[k]), msg + fmt.Sprintf("; txn %d %q: output %q versus %q", k, truncate(req.Txns[k], 120), truncate(x.Output, 60), truncate(y.Output, 60))}
+					d = &detail{"state", k, kind + cause(req.Txns, k), msg + fmt.Sprintf("; txn %d %q: output %q versus %q", k, truncate(req.Txns[k], 120), truncate(x.Output, 60), truncate(y.Output, 60))}
 				}
 				if d != nil {
 					break
@@ -555,8 +601,39 @@ func gen(r *rand.Rand, thorough bool, i int) []string {
 		n = 2 + r.Intn(14)
 	}
 	locked := false
+	// most cases have a history block first: a warm node has its values in the state cache, a cold one reads the trie
+	if r.Intn(10) < 7 {
+		ops = append(ops, "txn gov miner owner max_n=8", "txn "+pick(r, "gov storage owner max_charge=0.4", "gov faucet owner pour_amount=2", "send alice bob 3", "gov zcn owner min_stake=1 max_fee=5"), "txn next")
+	}
 	for k := 0; k < n; k++ {
+		if k > 0 && r.Intn(6) == 0 {
+			ops = append(ops, "txn next")
+		}
 		switch x := r.Intn(100); {
+		case x < 14:
+			// a governance call that is applied in place and then fails in validate, carrying cost.* keys, followed — in the same or
+			// in the next block — by a call that saves the same node
+			fail, save := "gov miner owner cost.add_miner=7777 cost.update_settings=9 min_n=0", "gov miner owner max_delegates=300"
+			switch r.Intn(4) {
+			case 1:
+				fail, save = "gov miner owner cost.payfees=1 max_n=2 min_n=3", "gov miner owner cost.add_sharder=12"
+			case 2:
+				fail, save = "gov zcn owner max_fee=0 min_stake=5 max_delegates=33", "gov zcn owner min_stake=1 max_fee=5"
+			case 3:
+				fail, save = "gov faucet owner pour_amount=5 max_pour_amount=1", "gov faucet owner individual_reset=2h"
+			}
+			ops = append(ops, "txn "+fail)
+			if r.Intn(2) == 0 {
+				ops = append(ops, "txn next")
+			}
+			ops = append(ops, "txn "+save)
+		case x < 20:
+			// storagesc before the fork: staged cost + a value that fails validate at commit, then a good commit
+			ops = append(ops, "txn gov storage owner cost.add_blobber=7777 max_delegates=0", "txn commit")
+			if r.Intn(2) == 0 {
+				ops = append(ops, "txn next")
+			}
+			ops = append(ops, "txn gov storage owner max_delegates=5", "txn commit")
 		case x < 30:
 			ops = append(ops, "txn "+genGov(r))
 		case x < 60:
@@ -600,6 +677,12 @@ func fixed() [][]string {
 		// user events (a send touches sender, receiver and the fee receiver)
 		{"init 0 1 fixed 1", "txn send alice bob 5", "txn send bob carol 7", "exec"},
 		{"init 0 0 fixed 1", "txn send alice bob 5", "txn pour carol", "txn gov miner owner max_n=8", "txn gov globals owner server_chain.block.max_block_size=77", "exec"},
+		// cache warmth: an update that is applied in place and then fails in validate must not leak into a later save (history block first)
+		{"init 0 0 fixed 1", "txn gov miner owner max_delegates=201", "txn next", "txn gov miner owner cost.add_miner=7777 min_n=0", "txn gov miner owner max_delegates=300", "exec"},
+		{"init 0 0 fixed 1", "txn gov miner owner max_delegates=201", "txn next", "txn gov miner owner cost.add_miner=7777 max_n=2 min_n=3", "txn next", "txn gov miner owner max_delegates=300", "exec"},
+		{"init 0 0 fixed 1", "txn gov zcn owner min_stake=1 max_fee=5", "txn next", "txn gov zcn owner max_fee=0 max_delegates=33", "txn gov zcn owner max_fee=6", "exec"},
+		{"init 0 0 fixed 1", "txn gov faucet owner pour_amount=2", "txn next", "txn gov faucet owner pour_amount=5 max_pour_amount=1", "txn gov faucet owner individual_reset=2h", "exec"},
+		{"init 0 0 fixed 1", "txn gov storage owner max_charge=0.4", "txn commit", "txn next", "txn gov storage owner cost.add_blobber=7777 max_delegates=0", "txn commit", "txn gov storage owner max_delegates=5", "txn commit", "exec"},
 	}
 }
 
